@@ -33,7 +33,7 @@ def main():
     ids = args or sorted(d for d in os.listdir(root) if os.path.isdir(os.path.join(root, d)))
     wt = "/tmp/bn-wt-%d" % os.getpid()
     sh(f"git -C /repo worktree add --detach {wt} HEAD")
-    out_path = os.path.join(root, "MATRIX.json")
+    out_path = os.path.join(root, os.environ.get("BENIGN_OUT", "MATRIX.json"))
     matrix = json.load(open(out_path)) if os.path.exists(out_path) else {}
     head = sh("git -C /repo rev-parse --short HEAD").stdout.strip()
     try:
